@@ -16,7 +16,7 @@ PROP = {
                   "source's order (C17_kmerge_sorted/_permutation/_source_order), the executable merge is such a run (C17_kmerge_model_is_run); the stacking shortcut "
                   "is_disjunct_and_sorted_on_sort_property (min/max windows, segment_has_live_nulls, reader pre-sort) is sound (C17_stack_sound) and every merge of sorted sources - either "
                   "branch, numeric keys or merged ordinals - is sorted and holds exactly the live documents (C17_segment_sorted_merge, C17_merge_keeps_live_documents, C17_merge_source_order), "
-                  "all outside the class F171 (Multivalued sort column with a live value-less document declared null-free by the pre-fix test `!= Cardinality::Optional`: C17_stack_multivalued_refuted); the shape of that test is re-read from merger.rs (pin SORT_LIVE_NULLS_SCANS_MULTIVALUED) and the model follows it; for the shape pinned now (`== Cardinality::Full`) the class is empty and the merge theorem holds for all sorted sources (C17_segment_sorted_merge_all). i64/date/f64 keys: the u64 images preserve the "
+                  "all outside the class F171 (Multivalued sort column with a live value-less document declared null-free by the pre-fix test `!= Cardinality::Optional`: C17_stack_multivalued_refuted); the shape of that test is re-read from merger.rs (pin SORT_LIVE_NULLS_SCANS_MULTIVALUED) and the model follows it; for the shape pinned now (`== Cardinality::Full`) the class is empty and the merge theorem holds for all sorted sources (C17_segment_sorted_merge_all). The writers' own encodings: field-norm buffers are padded to max_doc before the mapping indexes them, so a document lacking a field gets 0 wherever it was added (C17_fieldnorms_remapped); the term-frequency recorder stores deltas between OLD doc ids and serialize-with-mapping equals the remap of the posting list (C17_tf_recorder_remapped). i64/date/f64 keys: the u64 images preserve the "
                   "order of the values (C17_i64_key_order, C17_f64_key_order, pinned sign bit), so sortedness of keys is sortedness of values (C17_numeric_spec_is_key_order). "
                   "Str/Bytes keys are dictionary ordinals, modelled as the rank of the term among the terms of the segment / of all merged segments: ranks order terms exactly like "
                   "their bytes (C17_ordinal_key_order, C17_bytes_spec_is_key_order). std's stable sort_by is used through its contract only: any stable sorted permutation equals the "
@@ -25,7 +25,7 @@ PROP = {
                   "the mapping; deeper merge = C04); the tie compares modulo the order inside runs of equal keys, which the property leaves open. "
                   "Tie: the Coq model replays every generated history (finalize, remap, apply_deletes with remapped opstamps, advance_deletes, reader pre-sort, stack/k-way "
                   "merge) and must yield the observed segments; spec: spec_sorted on the field's own values (N / two's-complement Z / IEEE order / byte order) and spec_content (live ids per "
-                  "segment = sequential meaning of the history, blind to sorting) evaluated in Coq on every observation, attachment checks (id via store = fast field = postings, tag, "
+                  "segment = sequential meaning of the history, blind to sorting) evaluated in Coq on every observation, spec_attached (field norms of three text fields and tf of a shared term of a WithFreqs field as functions of the id, evaluated in Coq), the sorted-vs-unsorted reference comparison (the same history replayed on an unsorted index must give, segment by segment and keyed by document id, the same field norm for every normed field and the same (tf, positions) for every term of every indexed field: Basic, WithFreqs and WithFreqsAndPositions), attachment checks (id via store = fast field = postings, tag, "
                   "field norm, tf, sort values) decided on every doc id after every commit and merge.",
     "level_note": "Trusted: Coq kernel + vm_compute; pin.py (SORT_HIGHEST_BIT); the harness (history generator, observation through the public reader API, Gallina printers). "
                   "std sort_by / sort_unstable_by_key and itertools kmerge_by are not modelled line by line: stable insertion sort and the minimal-head merge relation stand for them, tied by "
